@@ -1,19 +1,60 @@
 #!/usr/bin/env python3
-"""Sensitivity self-test: apply each mutant (mutants/*.patch, seeded/*/patch.diff) to /repo, run the quick check of
-the property it targets, undo.  Evidence and replay files of these runs go to a scratch directory."""
+"""Sensitivity self-test: apply each mutant (mutants/*.patch, seeded/*/patch.diff) to a scratch copy of /repo's
+working tree (under /dev/shm, removed afterwards; /repo itself is never touched), run the check of the property it
+targets against that copy (VERIF_REPO / VERIF_BUILD overrides), and report caught / MISSED.
+
+  selftest.py [name-substring ...] [--tier=quick] [--runs=N] [--also=C08,C10] [--jobs=2] [--seed=N] [--no-meta]
+
+Evidence and replay files of these runs go to the scratch directory, never to /verif/evidence."""
 import os, sys, subprocess, glob, json, re, time, shutil
+from concurrent.futures import ThreadPoolExecutor
+
 
 def sh(*a, **k):
     return subprocess.run(a, capture_output=True, text=True, **k)
 
-def clean():
-    st = sh("git", "-C", "/repo", "status", "--porcelain", "--untracked-files=no").stdout.strip()
-    return st == ""
+
+def opt(name, default=None):
+    return next((a.split("=", 1)[1] for a in sys.argv if a.startswith("--%s=" % name)), default)
+
+
+def one(item, scratch, tier, runs, extra, seed):
+    name, patch, prop = item
+    slot = scratch + "/" + re.sub(r"[^A-Za-z0-9_.-]", "_", name)
+    repo = slot + "/repo"
+    os.makedirs(slot)
+    sh("rsync", "-a", "--exclude", ".git", "--exclude", "*.o", "--exclude", "*.lo", "--exclude", ".libs",
+       "--exclude", "_build", "/repo/", repo + "/")
+    a = sh("git", "apply", patch, cwd=repo)
+    if a.returncode != 0:
+        a = sh("patch", "-p1", "-s", "-i", patch, cwd=repo)
+    if a.returncode != 0:
+        shutil.rmtree(slot, ignore_errors=True)
+        return name, [(prop, "apply-failed", "", 0.0)]
+    env = dict(os.environ, VERIF_REPO=repo, VERIF_BUILD=slot + "/build", VERIF_EVIDENCE_DIR=slot + "/ev",
+               VERIF_FINDINGS_DIR=slot + "/fi", VERIF_SHRINK="80")
+    if runs:
+        env["VERIF_RUNS"] = runs
+    if seed:
+        env["VERIF_SEED"] = seed
+    row = []
+    for pr in [prop] + [e for e in extra if e != prop]:
+        t = time.time()
+        cp = sh(sys.executable, "/verif/sim/simctl.py", "check", pr, "--tier", tier, env=env)
+        rules = sorted(set(re.findall(r"^  rule=(\S+)", cp.stdout, re.M)))
+        status = {0: "MISSED", 1: "caught", 2: "infra"}.get(cp.returncode, "rc%d" % cp.returncode)
+        if "build of simhost" in cp.stdout:
+            status = "build-failed"
+        row.append((pr, status, ",".join(rules), time.time() - t))
+    shutil.rmtree(slot, ignore_errors=True)
+    return name, row
+
 
 def main():
     pats = [a for a in sys.argv[1:] if not a.startswith("--")]
-    runs = next((a.split("=")[1] for a in sys.argv if a.startswith("--runs=")), None)
-    extra = next((a.split("=")[1].split(",") for a in sys.argv if a.startswith("--also=")), [])
+    runs, tier, seed = opt("runs"), opt("tier", "quick"), opt("seed")
+    extra = (opt("also") or "").split(",") if opt("also") else []
+    jobs = int(opt("jobs", "2"))
     items = []
     for f in sorted(glob.glob("/verif/mutants/*.patch")):
         items.append((os.path.basename(f)[:-6], f, os.path.basename(f)[:3]))
@@ -22,48 +63,31 @@ def main():
         items.append(("seeded/" + os.path.basename(d.rstrip("/")), d + "patch.diff", meta["property"]))
     if pats:
         items = [it for it in items if any(p in it[0] for p in pats)]
-    if not clean():
-        print("refusing: /repo has uncommitted changes to tracked files")
-        sys.exit(2)
-    scratch = "/dev/shm/verif.selftest"
+    scratch = "/dev/shm/verif.selftest.%d" % os.getpid()
     shutil.rmtree(scratch, ignore_errors=True)
     os.makedirs(scratch)
-    env = dict(os.environ, VERIF_EVIDENCE_DIR=scratch + "/ev", VERIF_FINDINGS_DIR=scratch + "/fi", VERIF_SHRINK="80")
-    if runs:
-        env["VERIF_RUNS"] = runs
     results = []
     try:
-        for name, patch, prop in items:
-            a = sh("git", "-C", "/repo", "apply", patch)
-            if a.returncode != 0:
-                print("%-55s APPLY-FAILED %s" % (name, a.stderr.strip()[:100]))
-                results.append((name, prop, "apply-failed", ""))
-                continue
-            row = []
-            for pr in [prop] + [e for e in extra if e != prop]:
-                t = time.time()
-                cp = sh(sys.executable, "/verif/sim/simctl.py", "check", pr, "--tier", "quick", env=env)
-                rules = sorted(set(re.findall(r"^  rule=(\S+)", cp.stdout, re.M)))
-                status = {0: "MISSED", 1: "caught", 2: "infra"}.get(cp.returncode, "rc%d" % cp.returncode)
-                if "build of simhost" in cp.stdout:
-                    status = "build-failed"
-                row.append("%s:%s%s (%.0fs)" % (pr, status, rules if rules else "", time.time() - t))
-                results.append((name, pr, status, ",".join(rules)))
-            sh("git", "-C", "/repo", "checkout", "--", ".")
-            if name.startswith("seeded/"):
-                mp = "/verif/" + name + "/meta.json"
-                meta = json.load(open(mp))
-                meta["checks_run"] = ["git -C /repo apply seeded/%s/patch.diff; python3 sim/simctl.py check %s --tier quick -> %s; git -C /repo checkout -- ." %
-                                      (name[7:], r.split(":")[0], r.split(":", 1)[1]) for r in row]
-                json.dump(meta, open(mp, "w"), indent=1)
-            print("%-55s %s" % (name, "  ".join(row)))
-            sys.stdout.flush()
+        with ThreadPoolExecutor(jobs) as ex:
+            for name, row in ex.map(lambda it: one(it, scratch, tier, runs, extra, seed), items):
+                for pr, status, rules, dt in row:
+                    results.append((name, pr, status, rules))
+                if name.startswith("seeded/") and "--no-meta" not in sys.argv and tier == "quick" and not runs and not seed:
+                    mp = "/verif/" + name + "/meta.json"
+                    meta = json.load(open(mp))
+                    meta["checks_run"] = ["patch applied to a scratch copy of /repo; VERIF_REPO=<copy> python3 sim/simctl.py check %s --tier quick -> %s%s" %
+                                          (pr, status, " [%s]" % rules if rules else "") for pr, status, rules, dt in row]
+                    json.dump(meta, open(mp, "w"), indent=1)
+                print("%-60s %s" % (name, "  ".join("%s:%s%s (%.0fs)" % (pr, st, "[%s]" % ru if ru else "", dt) for pr, st, ru, dt in row)))
+                sys.stdout.flush()
     finally:
-        sh("git", "-C", "/repo", "checkout", "--", ".")
-        sh("make", "-C", "/verif", "build")
-    json.dump(results, open(scratch + "/results.json", "w"), indent=1)
+        shutil.rmtree(scratch, ignore_errors=True)
     missed = [r for r in results if r[2] != "caught"]
     print("%d runs, %d not caught" % (len(results), len(missed)))
+    for r in missed:
+        print("  NOT CAUGHT: %s %s %s" % (r[0], r[1], r[2]))
+    sys.exit(1 if missed else 0)
+
 
 if __name__ == "__main__":
     main()
